@@ -176,7 +176,15 @@ def eq(ctx):
             continue
         out, tr = it.run({'is_set': is_set, 'same_len': same_len_, 'same_seq': same_seq})
         v = out.value if out.kind == 'return' else None
-        if isinstance(v, ast.Constant):
+        decided = None
+        if v is not None and not isinstance(v, ast.Constant):
+            try:
+                decided = bool(it.cond(v, {'is_set': is_set, 'same_len': same_len_, 'same_seq': same_seq}, []))
+            except AnalysisError:
+                decided = None
+        if decided is not None:
+            got = decided
+        elif isinstance(v, ast.Constant):
             got = v.value
         elif v is not None and same_len({'_A': v.left, '_B': v.comparators[0]}, {'same_len': same_len_, 'same_seq': same_seq}, []) is not None \
                 if isinstance(v, ast.Compare) and len(v.ops) == 1 and isinstance(v.ops[0], (ast.Eq, ast.NotEq)) else False:
